@@ -3,7 +3,7 @@
    us q = floor (q * 10^6): whole microseconds of an instant q given in seconds (Q, exact). *)
 From Coq Require Import List ZArith QArith Qround Bool.
 From PV Require Import lib.Sx lib.Str lib.Result lib.Dec.
-From PV Require Import model.TimeRead spec.SpecTime proofs.TimeReadFacts proofs.TimeDocFacts.
+From PV Require Import model.TimeRead model.TimeTree spec.SpecTime spec.SpecTimeTree proofs.TimeReadFacts proofs.TimeDocFacts proofs.TimeTreeFacts.
 Import ListNotations.
 Open Scope Z_scope.
 
@@ -105,6 +105,30 @@ Theorem C01_mdvd_doc_exact : forall crlf f cues, fps_dom f = true -> forallb mdv
 Proof. exact mdvd_doc_exact. Qed.
 Print Assumptions C01_mdvd_doc_exact.
 
+(* ---- DFXP and SAMI documents as abstract trees (what BeautifulSoup hands to the readers) ------------
+   DFXP: several <div> with language resolution (own xml:lang, the document's, the default), paragraphs with
+   text (time attributes among other attributes) and without (never looked at), one caption list per language *)
+Theorem C01_dfxp_tree_exact : forall default tt divs, tree_dom default tt divs = true ->
+  dfxp_read_tree default tt (map (fun dv => (fst dv, map ap_render (snd dv))) divs)
+  = set_result (tree_expected default tt divs).
+Proof. exact dfxp_tree_exact. Qed.
+Print Assumptions C01_dfxp_tree_exact.
+Theorem C01_dfxp_blank_paragraph_ignored : forall a ps, dfxp_div_caps (mkXp a false :: ps) = dfxp_div_caps ps.
+Proof. exact dfxp_blank_ignored. Qed.
+Print Assumptions C01_dfxp_blank_paragraph_ignored.
+(* a paragraph with text and no begin, or with neither end nor dur, is refused (CaptionReadTimingError) *)
+Theorem C01_dfxp_missing_times_refused : forall b e d,
+  dfxp_p_times None e d = Err ETiming /\ dfxp_p_times (Some []) e d = Err ETiming /\
+  dfxp_p_times (Some b) None None = Err ETiming.
+Proof. exact dfxp_missing_times_refused. Qed.
+Print Assumptions C01_dfxp_missing_times_refused.
+
+(* SAMI: several languages over one list of <sync>; every language is back-filled on its own paragraphs *)
+Theorem C01_sami_tree_exact : forall langs body, sami_tree_dom langs body = true ->
+  sami_read_tree langs (map async_render body) = set_result (sami_tree_expected langs body).
+Proof. exact sami_tree_exact. Qed.
+Print Assumptions C01_sami_tree_exact.
+
 (* ---- repaired defect #7 on record: the pre-fix scaling of a fraction longer than three digits ---- *)
 Theorem C01_dfxp_long_fraction_refuted :
   exists ds, digits_ok ds = true /\ dfxp_fraction_unfixed (digits_str ds) <> Ok (us (frac_q ds)).
@@ -154,3 +178,18 @@ Example C01_ex_vtt_doc :
   forallb vtt_cue_dom cues = true /\ vtt_sorted_from (-500) 0 cues = true /\
   vtt_read true (-500) (vtt_render false cues) = Ok [(500000, 359999505000, [lit "x"])].
 Proof. vm_compute. repeat split; reflexivity. Qed.
+Example C01_ex_sami_tree :
+  let body := [(0%nat, 1000, [(lit "en", true); (lit "fr", true)]); (1%nat, 2000, [(lit "en", false)]);
+               (0%nat, 3000, [(lit "fr", true)]); (0%nat, 5000, [(lit "en", true)])] in
+  sami_tree_dom [lit "en"; lit "fr"] body = true /\
+  sami_read_tree [lit "en"; lit "fr"] (map async_render body)
+  = Ok [(lit "en", [(1000000, 2000000); (5000000, 9000000)]); (lit "fr", [(1000000, 3000000); (3000000, 7000000)])].
+Proof. vm_compute. split; reflexivity. Qed.
+Example C01_ex_dfxp_tree :
+  let divs := [(None, [APText [(lit "region", lit "r1")] (mkP (Offset 0 1 [] Ms) true (Offset 0 1 [5] Ms));
+                       APBlank [(lit "begin", lit "junk")]]);
+               (Some (lit "fr"), [APText [] (mkP (Clock 1 0 1 0 NoFrac) false (Clock 1 0 1 1 (Frames 15)))])] in
+  tree_dom (lit "und") (Some (lit "en")) divs = true /\
+  dfxp_read_tree (lit "und") (Some (lit "en")) (map (fun dv => (fst dv, map ap_render (snd dv))) divs)
+  = Ok [(lit "en", [(1000000, 2500000)]); (lit "fr", [(60000000, 61500000)])].
+Proof. vm_compute. split; reflexivity. Qed.
